@@ -34,11 +34,14 @@ def transform_system(system, spec):
     for mol in system.molecules:
         if kind == 'rename-h':
             per_res = {}
-            for n, d in mol.nodes(data=True):
+            nodes = list(mol.nodes(data=True))
+            if spec.get('hstyle') == 'arbitrary-reversed':
+                nodes.reverse()         # the numbers run against the order of the file
+            for n, d in nodes:
                 if d.get('element') == 'H':
                     key = (d.get('chain'), d.get('resid'), d.get('insertion_code'))
                     per_res[key] = per_res.get(key, 0) + 1
-                    d['atomname'] = 'HX%d' % per_res[key] if spec.get('hstyle', 'arbitrary') == 'arbitrary' else \
+                    d['atomname'] = 'HX%d' % per_res[key] if spec.get('hstyle', 'arbitrary').startswith('arbitrary') else \
                         (d['atomname'][-1] + d['atomname'][:-1] if d['atomname'][-1].isdigit() and len(d['atomname']) > 1 else d['atomname'])
                     record['names_changed'] += 1
             new_mols.append(mol)
